@@ -533,3 +533,57 @@ def init_results_checked(ctx, tag):
                           "in the map (dry, service, post_action_delay) keep their defaults" % f.text(i)[:60])
     ctx.counters[tag + "_init_call_sites"] = n
     ctx.floor(tag + "_init_call_sites", 3, "call sites of BasePlugin::init/initPlugin in the library")
+
+
+# ---------------------------------------------------------------- positional wiring of same-typed settings
+def _name_tokens(txt):
+    last = re.split(r"[.>]", txt.replace("this->", "").replace("()", ""))[-1].strip("_ ")
+    toks = set(t for t in last.split("_") if t)
+    return {re.sub(r"d$", "", t) if t in ("silenced",) else t for t in toks} - {"dropin", "drop", "in"}
+
+
+def _names_agree(a, b):
+    ta, tb = _name_tokens(a), _name_tokens(b)
+    return bool(ta) and bool(tb) and (ta <= tb or tb <= ta)
+
+
+def ruleset_wiring(ctx, tag, settings):
+    """A ruleset setting travels configuration -> make_unique<Ruleset>(...) -> constructor parameter -> field by POSITION among
+    neighbours of the same type (int, int / bool, bool, bool): at every hop the names on both sides have to agree."""
+    P = ctx.prog
+    ctors = [f for f in P.fns.values() if f.pq == "Oomd::Engine::Ruleset::Ruleset" and f.kind == "ctor" and len(f.params) >= 9]
+    ctx.counters[tag + "_ruleset_ctors"] = len(ctors)
+    ctx.floor(tag + "_ruleset_ctors", 2, "Ruleset constructors taking the settings")
+    n = 0
+    for c in ctors:
+        ctx.use(c)
+        for ini in c.d.get("inits", []):
+            if not ini.get("written") or "n" not in ini:
+                continue
+            fld = ini["field"].split("::")[-1]
+            if not any(_names_agree(fld, s_) for s_ in settings):
+                continue
+            src = c.text(ini["n"])
+            n += 1
+            ctx.check(_names_agree(fld, src), "%s:wiring:ctor-init:%s@%d" % (tag, fld, c.line), "name agreement (positional wiring)", c.loc(),
+                      "%s is initialised from the parameter of the same name (%s)" % (fld, src),
+                      "%s is initialised from '%s': a same-typed neighbour was wired to the wrong field" % (fld, src))
+    by_arity = {len(c.params): c for c in ctors}
+    for f in P.fns.values():
+        for i in f.calls("make_unique", "std::make_unique"):
+            nd = f.nodes[i]
+            if "Ruleset" not in nd.get("type", "") or "DetectorGroup" in nd.get("type", "") or len(nd.get("args", [])) not in by_arity:
+                continue
+            c = by_arity[len(nd["args"])]
+            ctx.use(f)
+            for pos, (a, prm) in enumerate(zip(nd["args"], c.params)):
+                if not any(_names_agree(prm["name"], s_) for s_ in settings):
+                    continue
+                n += 1
+                at = f.text(a)
+                ctx.check(_names_agree(at, prm["name"]), "%s:wiring:%s:arg%d:%s" % (tag, short(f), pos, prm["name"]), "name agreement (positional wiring)", f.loc(i),
+                          "argument %d (%s) feeds the constructor parameter %s" % (pos, at, prm["name"]),
+                          "argument %d of make_unique<Ruleset> is '%s' but the constructor's parameter at that position is '%s': two settings of the same type are "
+                          "transposed (the compiler cannot see it)" % (pos, at, prm["name"]))
+    ctx.counters[tag + "_wiring_hops"] = n
+    ctx.floor(tag + "_wiring_hops", 2 * len(settings), "wiring hops examined for " + ", ".join(settings))
